@@ -249,7 +249,33 @@ type incrRig struct {
 	arrive  map[byte]chan struct{}
 	release map[byte]chan struct{}
 	tick    chan time.Time
-	done    chan struct{} // one token per finished goroutine of the pair (parser, sender)
+	goids   map[int64]bool // goroutines of this pair (parser, sender)
+}
+
+func (r *incrRig) addGoid(g int64) {
+	r.mu.Lock()
+	if r.goids == nil {
+		r.goids = map[int64]bool{}
+	}
+	r.goids[g] = true
+	r.mu.Unlock()
+}
+
+// rigAborts takes the recorded aborts and keeps those of the given pair.
+func rigAborts(r *incrRig) []abortInfo {
+	var out []abortInfo
+	for _, a := range takeAborts() {
+		if r == nil {
+			continue
+		}
+		r.mu.Lock()
+		ok := r.goids[a.Goid]
+		r.mu.Unlock()
+		if ok {
+			out = append(out, a)
+		}
+	}
+	return out
 }
 
 var curIncr *incrRig
@@ -446,13 +472,25 @@ func incrOne(tr *tracer.T, cfg *incrIn, pi int, path []map[string]interface{}, h
 				}
 			}
 		}()
-		rigDone := make(chan struct{}, 2)
-		rig.done = rigDone
-		go func() { runAbortable(func() { ds.VerifSendTargetCommand(cc) }); rigDone <- struct{}{} }()
-		go func() {
-			runAbortable(func() { ds.VerifParseSourceCommand(bufio.NewReaderSize(fd, 64)) })
-			rigDone <- struct{}{}
-		}()
+		// the pair's goroutine ids: an abort (the tool's "panic = exit") is attributed to THIS pair only if it comes from one
+		// of them - the pair of before a cut ends by such an abort some time after its connections were killed
+		myRig := rig
+		// (plain goroutines: the recorded abort stays in the list until the step that misses the goroutine asks for it)
+		pair := func(f func()) {
+			go func() {
+				defer func() {
+					if r := recover(); r != nil {
+						abortMu.Lock()
+						aborts = append(aborts, abortInfo{Msg: "go panic", Err: fmt.Sprint(r), Goid: goid()})
+						abortMu.Unlock()
+					}
+				}()
+				myRig.addGoid(goid())
+				f()
+			}()
+		}
+		pair(func() { ds.VerifSendTargetCommand(cc) })
+		pair(func() { ds.VerifParseSourceCommand(bufio.NewReaderSize(fd, 64)) })
 		if cfg.Free {
 			return true
 		}
@@ -494,19 +532,6 @@ func incrOne(tr *tracer.T, cfg *incrIn, pi int, path []map[string]interface{}, h
 			case rig.tick <- time.Now():
 			default:
 			}
-		}
-		// the old parser / sender end now (dead connections, freed gates, closed feed), usually by the tool's "panic = exit";
-		// wait for them so that their abort is not taken for one of the restarted pair
-		if rig != nil && rig.done != nil {
-			deadline := time.After(2 * time.Second)
-			for i := 0; i < 2; i++ {
-				select {
-				case <-rig.done:
-				case <-deadline:
-					i = 2
-				}
-			}
-			rig.done = nil
 		}
 		time.Sleep(2 * time.Millisecond)
 		takeAborts()
@@ -600,7 +625,7 @@ func incrOne(tr *tracer.T, cfg *incrIn, pi int, path []map[string]interface{}, h
 				}
 			}
 			if !ok && !waitCh(rig.arrive['p']) {
-				if ab := takeAborts(); len(ab) > 0 {
+				if ab := rigAborts(rig); len(ab) > 0 {
 					add(si, "L1", "the tool aborted while parsing the source stream: "+ab[0].Msg+" "+ab[0].Err)
 				} else {
 					fd.mu.Lock()
@@ -624,7 +649,7 @@ func incrOne(tr *tracer.T, cfg *incrIn, pi int, path []map[string]interface{}, h
 			}
 			rig.release['s'] <- struct{}{}
 			if !waitCh(rig.arrive['s']) {
-				if ab := takeAborts(); len(ab) > 0 {
+				if ab := rigAborts(rig); len(ab) > 0 {
 					add(si, "L1", "the tool aborted while sending to the target: "+ab[0].Msg+" "+ab[0].Err)
 				} else {
 					add(si, "hang", "sender did not finish one iteration")
